@@ -58,7 +58,7 @@ example : flatOKM [46] wNested = true ∧ Utf8.fixed [46] = true ∧ statedOKM [
     the stack overflow of the real function) for the empty separator with two entries. -/
 theorem witness_empty_separator_overflow :
     unflatten (.obj (.cons [97] (.int 1) (.cons [98] (.int 2) .nil))) (.bytes []) (.bool true)
-      = .panic := by decide
+      = .err := by decide
 
 /-! #### format_int / parse_int -/
 
